@@ -17,7 +17,8 @@ RULE = (
     "Morphologies, parameters and Leak placement as in C01, dt log-uniform in (1e-6, 1e9] ms, all three backends. "
     "Per (solver, backend) one step through build_init_and_step_fn gives: (a) charge balance "
     "sum_i A_i c_i (v'_i - v_i) = dt (sum I - sum_i A_i g_i (v*_i - E_i)) with v* = v' / (v+v')/2 / v for "
-    "bwd / CN / fwd; (b) a uniform model at its reversal potential stays uniform; (c) bwd_euler without stimulus: "
+    "bwd / CN / fwd, and for networks with 0-3 IonotropicSynapse/TestSynapse edges the same balance including the synaptic charge g s' (v'_post - e_syn) "
+    "(bwd_euler, new synaptic states read from the returned state); (b) a uniform model at its reversal potential stays uniform; (c) bwd_euler without stimulus: "
     "min(v,E) <= v' <= max(v,E); (d) reciprocity D[i,j] = D[j,i] for ALL ordered pairs from one vmapped step over "
     "one-hot currents (N <= 16). Each clause evaluation counts once. Non-trivial: branched with a radius or length "
     "ratio > 2 across a junction, or (for (c)) dt > 10 tau_min; distinct = hash(structure, geometry class, dt decade, solver, backend)."
@@ -47,6 +48,16 @@ def _spec(draw, tier):
     base["recip_backend"] = draw(st.sampled_from(BACKENDS))
     base["recip_solver"] = draw(st.sampled_from(["bwd_euler", "crank_nicolson"]))
     base["e_uniform"] = draw(fl(-90.0, -40.0))
+    # networks: a few conductance-based synapses, so that the charge carried by synaptic currents is part of the balance
+    N = gm.n_compartments(base["morph"]["cells"])
+    base["syn"] = []
+    if base["morph"]["kind"] == "network" and N >= 2:
+        for _ in range(draw(st.integers(0, 3))):
+            pre = draw(st.integers(0, N - 1))
+            post = draw(st.integers(0, N - 2))
+            post = post if post < pre else post + 1
+            base["syn"].append({"pre": pre, "post": post, "type": draw(st.sampled_from(["IonotropicSynapse", "TestSynapse"])),
+                                "g": draw(gm.log_uniform(1e-5, 1e-2)), "e_syn": draw(fl(-80.0, 10.0)), "s": draw(fl(0.0, 1.0))})
     return base
 
 
@@ -170,6 +181,9 @@ def judge(spec, tier="quick"):
                     continue
                 if not dev <= (1e3 * N * np.finfo(float).eps * cond + 1e-10) * abs(E0) + 1e-8:
                     out.violate(f"uniform:{solver}:{backend}", f"{solver}/{backend} dt={dt}: uniform model at E={E0} moved by {dev:.3e} mV; cells={spec['morph']['cells']}")
+    # (a') charge balance including synaptic currents (networks with conductance-based synapses, bwd_euler)
+    if spec.get("syn"):
+        _judge_synaptic_charge(spec, out, cab, G, C, I, e, v0, dt, N, struct_key, decade)
     # (d) reciprocity over all ordered pairs
     if 2 <= N <= 16:
         solver, backend = spec["recip_solver"], spec["recip_backend"]
@@ -204,6 +218,61 @@ def judge(spec, tier="quick"):
             else:
                 out.filtered += 1
     return out
+
+
+def _judge_synaptic_charge(spec, out, cab, G, C, I, e, v0, dt, N, struct_key, decade):
+    """sum C dv = dt (sum I - sum G (v' - E) - sum_syn g s' (v'_post - e_syn)) for one backward Euler step; the new synaptic
+    states s' are read from the state dictionary the step function returns."""
+    import jax.numpy as jnp
+    from jaxley.connect import connect
+    from jaxley.integrate import build_init_and_step_fn
+    import jaxley.synapses as js
+
+    def run(backend):
+        m = c01.build(spec)
+        for k, sy in enumerate(spec["syn"]):
+            connect(m.select(nodes=[int(sy["pre"])]), m.select(nodes=[int(sy["post"])]), getattr(js, sy["type"])())
+            gkey, skey = ("IonotropicSynapse_gS", "IonotropicSynapse_s") if sy["type"] == "IonotropicSynapse" else ("TestSynapse_gC", "TestSynapse_c")
+            m.select(edges=[k]).set(gkey, float(sy["g"]))
+            m.select(edges=[k]).set(skey, float(sy["s"]))
+            if sy["type"] == "IonotropicSynapse":
+                m.select(edges=[k]).set("IonotropicSynapse_e_syn", float(sy["e_syn"]))
+        m.to_jax()
+        init_fn, step_fn = build_init_and_step_fn(m, voltage_solver=backend, solver="bwd_euler")
+        states, params = init_fn([], None, None, dt)
+        ext = {"i": jnp.asarray([a for _, a in spec["stim"]], dtype=float)} if spec["stim"] else {}
+        inds = {"i": jnp.asarray([r for r, _ in spec["stim"]], dtype=int)} if spec["stim"] else {}
+        new = step_fn(states, params, ext, inds, dt)
+        return {k: np.asarray(v, float) for k, v in new.items()}, m.edges.copy()
+
+    for backend in BACKENDS:
+        res, err = core.call(run, backend)
+        if err:
+            out.refusals.append(f"synaptic bwd_euler/{backend}:{err.etype}@{err.frame}")
+            continue
+        new, edges = res
+        v1 = new["v"]
+        if not np.isfinite(v1).all():
+            continue
+        isyn = 0.0  # uA
+        for t, skey, ekey in (("IonotropicSynapse", "IonotropicSynapse_s", "IonotropicSynapse_e_syn"), ("TestSynapse", "TestSynapse_c", None)):
+            ids = [k for k, sy in enumerate(spec["syn"]) if sy["type"] == t]
+            for rank, k in enumerate(ids):
+                sy = spec["syn"][k]
+                esyn = sy["e_syn"] if ekey else 0.0
+                isyn += sy["g"] * float(new[skey][rank]) * (v1[sy["post"]] - esyn) * 1e-3  # uS * mV = nA -> uA
+        lhs = float(np.sum(C * (v1 - v0)))
+        rhs = float(dt * (np.sum(I) - np.sum(G * (v1 - e)) - isyn))
+        gsyn_mS = sum(sy["g"] for sy in spec["syn"]) * 1e-3
+        scale = max(float(np.max(np.abs(v1))), float(np.max(np.abs(v0))), 1.0)
+        delta = (1e3 * N * np.finfo(float).eps * 1e6 + 1e-9) * scale + 1e-8
+        tol = float(np.sum(C + dt * G) + dt * gsyn_mS) * delta + 1e-12 * (abs(lhs) + abs(rhs))
+        out.evals += 1
+        out.classes.append("synaptic charge balance")
+        out.nontrivial_keys.append(f"{struct_key}|{decade}|{backend}|syn{len(spec['syn'])}")
+        if not abs(lhs - rhs) <= tol:
+            out.violate(f"charge-synaptic:{backend}", f"bwd_euler/{backend} dt={dt}: change of membrane charge {lhs!r} vs injected minus membrane minus synaptic charge {rhs!r} "
+                        f"(tolerance {tol:.2e}); synapses {[(sy['pre'], sy['post'], sy['type']) for sy in spec['syn']]}; cells={spec['morph']['cells']}")
 
 
 PREDICATES = {}
